@@ -765,16 +765,15 @@ class Link(SimComponent):
             receiver = self.endpoint_b
         frame_size = frame.size_Mbits
 
-        if receiver.receive_frame(frame):
-            # Frame transmitted successfully
-            # Load the frame size on the link
-            self.current_load += frame_size
-            _LOGGER.debug(
-                f"Added {frame_size:.3f} Mbits to {self}, current load {self.current_load:.3f} Mbits "
-                f"({self.current_load_percent})"
-            )
-            return True
-        return False
+        # Load the link before handing the frame over: anything sent while this frame is being delivered (a reply,
+        # a forwarded copy) must be admitted against a load that already contains it, and a frame that has crossed
+        # the link has used it whether or not the receiving interface keeps it.
+        self.current_load += frame_size
+        _LOGGER.debug(
+            f"Added {frame_size:.3f} Mbits to {self}, current load {self.current_load:.3f} Mbits "
+            f"({self.current_load_percent})"
+        )
+        return bool(receiver.receive_frame(frame))
 
     def __str__(self) -> str:
         return f"{self.endpoint_a}<-->{self.endpoint_b}"
